@@ -12,7 +12,7 @@ def make_spec(g, allow):
     r = g.r
     h = gen_history(g, allow)
     spec = dict(cfgs=h.cfgs, execs=h.execs, flags=set(h.flags), recmode=r.choice(['', '', 'true']),
-                modes=r.sample(REPLAY_MODES, 3), pre=[], nest=gen_nest(r, h.execs, 0.3))
+                modes=r.sample(REPLAY_MODES, 3), pre=[], nest=gen_nest(r, h.execs, 0.3), edit=suites.edit_choice(r, h.execs))
     if r.random() < 0.4:
         h0 = gen_history(g, ('nosafn',), max_tests=2, max_calls=3, ncfg=len(h.cfgs))
         spec['flags'] |= h0.flags
@@ -43,6 +43,8 @@ def render(tag, spec):
     for ei in range(len(spec['execs'])):
         rec_idx.setdefault(ei, [])
     texec = base + len(spec['execs'])
+    if spec.get('edit') and not any(c.kind in ('sasnap', 'sajson') for _, calls in spec['pre'] for _, c in calls):
+        w.add('fsedit ' + spec['edit'])
     ref = w.add('fsdump')
     for ci, upd in spec['modes']:
         w.add('reset')
